@@ -1264,7 +1264,13 @@ impl<T: RadixSortable> AdvancedRadixSort<T> {
             // Count occurrences with SIMD optimization when available
             counts.fill(0);
 
-            if self.config.use_simd && self.cpu_features.has_advanced_simd() && data.len() >= 16 {
+            // The SIMD counter works on the low 32 bits of each key, so it is only valid
+            // while the whole digit lies below bit 32.
+            if self.config.use_simd
+                && self.cpu_features.has_advanced_simd()
+                && data.len() >= 16
+                && shift + self.config.radix_bits <= 32
+            {
                 self.count_digits_simd(data, shift, mask, &mut counts)?;
             } else {
                 // Sequential counting
